@@ -39,6 +39,11 @@ mod c34;
 
 #[path = "../ls/c27.rs"]
 mod c27;
+#[path = "../ls/c29.rs"]
+mod c29;
+
+#[path = "../ls/c28.rs"]
+mod c28;
 
 /// Report of harness/build.rs about the checked-in generated parser (empty = up to date).
 const STALE_REPORT: &str = include_str!(concat!(env!("OUT_DIR"), "/ls_stale_report.txt"));
@@ -53,6 +58,8 @@ fn main() {
         "c30" => c30::cli(&args[2..]),
         "c34" => c34::cli(&args[2..]),
         "c27" => c27::cli(&args[2..]),
+        "c29" => c29::cli(&args[2..]),
+        "c28" => c28::cli(&args[2..]),
         "stale" => {
             if STALE_REPORT.is_empty() {
                 println!("fresh");
